@@ -10,7 +10,7 @@ let verdict_of (c : char) : verdict =
 
 let parse_ev (t : string) : event =
   match t.[0] with
-  | 'H' ->
+  | 'H' | 'B' ->
     (match String.split_on_char ':' (String.sub t 1 (String.length t - 1)) with
      | [n; h; k] -> Hello (n_of_int (int_of_string n), n_of_int (int_of_string h), verdict_of k.[0])
      | _ -> failwith ("bad hello " ^ t))
@@ -37,13 +37,20 @@ let obs_of (e : event) (s : srv) : string =
 let () =
   let compared = ref 0 and mism = ref 0 in
   iter_trace Sys.argv.(1) (fun id inp obs ->
-    let s = ref init in
+    (* "live": the real LSP updater routine runs, i.e. a pending request is served (Regen) as soon as the
+       event that raised it is over; B = ForceRegen (the build the harness requested: request consumed,
+       LSP := Up adjacencies), then the hello that arrived during the build, then the updater again *)
+    let live = (match inp with "live" :: _ -> true | _ -> false) in
+    let inp = if live then List.tl inp else inp in
+    let s = ref (if live then step init Regen else init) in
     let bad = ref None in
     let nobs = List.length obs in
     List.iteri (fun i t ->
       if i < nobs || !bad = None then begin
         let e = parse_ev t in
+        if t.[0] = 'B' then s := step !s ForceRegen;
         s := step !s e;
+        if live then s := step !s Regen;
         let mo = obs_of e !s in
         let io = (try List.nth obs i with _ -> "<missing>") in
         if !bad = None && mo <> io then bad := Some (i, t, mo, io)
